@@ -71,7 +71,9 @@ def main():
                 continue
             t0 = time.time()
             cmd = [os.path.join(VERIF, "tools", "evalmut.py"), os.path.join(d, "patch.diff"), "--no-tests"]
-            if kind == "seeded" and "--all-props" not in a:
+            if "--props" in a:
+                cmd += ["--props", a[a.index("--props") + 1]]
+            elif kind == "seeded" and "--all-props" not in a:
                 # the check of the property the change was written against, plus every check
                 # that reported it before (so that "detected by some check" is re-established)
                 m = json.load(open(os.path.join(d, "meta.json")))
